@@ -123,6 +123,7 @@ fn case_of(w: &World, clause_case: String, a: &St, b: &St, desc: String, extra: 
         case: format!("{} {clause_case}", w.label),
         desc,
         replay: json!({"dag": dag_to_json(&w.dag), "label": w.label, "a": a.shape.show(), "b": b.shape.show(), "extra": extra}),
+        fixed_key: false,
     }
 }
 
@@ -269,6 +270,9 @@ pub fn run_world(w: &World, acc: &mut Acc, states_seen: &mut HashSet<u64>) {
                                 json!({"advert": kind}),
                             );
                             let only_merges = b.ids.difference(&a.ids).all(|id| b.merges.contains(id));
+                            let mut c = c;
+                            // tier-independent key for the identified root cause (virtual merge == materialised merge)
+                            c.fixed_key = kind == "hello" && only_merges;
                             acc.fault(
                                 match (kind == "hello", only_merges) {
                                     (true, false) => "needed-sync-suppressed",
